@@ -106,14 +106,15 @@ class Inside(Contract):
     cover_raise = True
 
     def configs(self, tier):
-        out = [{"rank": 1, "extra": 0}, {"rank": 2, "extra": 0}, {"rank": 1, "extra": 1}]
+        out = [{"rank": 1, "extra": 0}, {"rank": 2, "extra": 0}, {"rank": 1, "extra": 1}, {"rank": 1, "extra": 0, "int": True}]
         if tier == "thorough":
             out += [{"rank": 3, "extra": 0}]
         return out
 
     def setup(self, B, cfg):
         dims = tuple(B.dim("n%d" % k, 0) for k in range(cfg["rank"]))
-        coords = [B.array("easting", dims), B.array("northing", dims)] + [B.array("extra%d" % k, dims) for k in range(cfg["extra"])]
+        kind = "i" if cfg.get("int") else "f"  # integer-dtype coordinates against real-valued (fractional) bounds
+        coords = [B.array("easting", dims, kind=kind), B.array("northing", dims, kind=kind)] + [B.array("extra%d" % k, dims) for k in range(cfg["extra"])]
         return (tuple(coords), _region_of(B)), {}
 
     def raises(self, a):
@@ -132,6 +133,10 @@ class Inside(Contract):
             coords[1].flat[-1] = region[rng.choice([2, 3])]
             yield (coords, region), {}
         yield ((np.zeros(3), np.zeros(3)), [1.0, 0.0, 0.0, 1.0]), {}
+        for dt in ("int64", "int32", "float32"):  # other coordinate dtypes, fractional bounds
+            ce, cn = np.meshgrid(np.arange(-2, 7), np.arange(-1, 6))
+            yield ((ce.astype(dt), cn.astype(dt)), (0.5, 4.75, 0.25, 3.5)), {}
+            yield ((ce.ravel().astype(dt), cn.ravel().astype(dt)), (-1.5, 4.25, -0.75, 4.5)), {}
 
     def ensures(self, a, r):
         e, n = a.coordinates[0], a.coordinates[1]
